@@ -5,6 +5,14 @@ import json, sys
 ALL = ["C%02d" % i for i in range(1, 21)]
 
 CHECKS = {
+ "C04": dict(level="exploration", design="§3 C04, §0.1 E1",
+   technique="stateless choice-sequence exploration (E1): full products of small grammars (style columns in every permutation, event columns in all 120 orders, text shapes, script-info subsets) plus the deviation ball over all model and rendering choice points, on the real SSA reader/writer, judged against an independent Format-driven reference codec",
+   text="Every (model, rendering) in the products and the ball is rendered and read by ReadFromSSA (denotation comparison); every representable model is written by WriteToSSA (v4 and v4+), decoded by the library and by an independent decoder (true <=> -1), and write-read-write must be byte-identical.",
+   note="Trusted: Go toolchain/stdlib, engine/ref/ssa. Write direction uses style tables with one shared attribute set (map order is C19's subject). Known finding: true booleans written as 1 (golden files pin it)."),
+ "C05": dict(level="exploration", design="§3 C05",
+   technique="exhaustive enumeration (E1 products + deviation ball + finite tables): every timecode of a product of h,m,s and all frames at 25/30 fps, every Latin code, every diacritic x base letter, style-code strings, block patterns with user-data blocks, GSI fields, DSC 0/1/2, TCP, reader option; real STL reader/writer judged against an independent Tech 3264 encoder/decoder",
+   text="Every file in scope is encoded by the independent encoder and read by ReadFromSTL (metadata, timecodes minus TCP, rows, runs, justification, vertical position); every representable model is written by WriteToSTL, checked structurally and decoded by the library and by the independent decoder; read-write-read changes no timecode.",
+   note="Trusted: Go toolchain/stdlib, engine/ref/stl (table written from ISO 6937 / Tech 3264). Known findings: no box codes under teletext display standards; '$' written as 0x24 (both pinned by golden files)."),
  "C06": dict(level="exploration", design="§3 C06",
    technique="exhaustive enumeration (product mode) of a packet-sequence language: all words up to a length over an alphabet of teletext packet kinds x reader options x multiplexing variants x row-text tables, assembled into valid transport streams by an independent encoder and judged against a reference page machine written from the property sentence",
    text="Every word of length <=3 over 26 packet kinds (4 over 16; thorough <=4 over 26 and 5 over 14), under serial and parallel mode, page/PID given or auto-detected, 8 multiplexing variants, every G0 position under 7 national subsets, all attribute-code strings of length <=3, parity failures at every cell and every truncation of six packet kinds is read by ReadFromTeletext under recover() and compared with the reference machine (cues, times, lines, runs, text).",
